@@ -11,7 +11,12 @@ custom caching dict, which archives results to memory, file, or database
 import os
 import sys
 import shutil
-from random import random
+from random import random as _random
+def random():
+    "a value for naming temporary files, unique to this process and moment"
+    # the global generator alone is not: processes that seed it alike draw
+    # alike, and would then stage their writes under the same name
+    return (_random(), os.getpid(), os.urandom(8))
 from pickle import PROTO, STOP
 from collections.abc import KeysView, ValuesView, ItemsView
 from importlib import util as imp
